@@ -49,7 +49,9 @@ void iobuffer::export_buffer(FILE *fout, bool ispadding)
 {
   if (isfinal)
   {
-    u8_t padding = ispadding ? 0 : b[now - 1][15];
+    u8_t padding = (ispadding || now == 0) ? 0 : b[now - 1][15];
+    if (padding > 16)
+      padding = 16; // never a valid pad length; keeps the size below from wrapping around
     fwrite(b, 1, (now << 4) - padding, fout);
   }
   else
